@@ -1,20 +1,43 @@
-"""GATEWAY - composition of the property specifications of C03 (restricted selection), C04 (graph walk), C01 / C02 (quota
-state) and C07 (first early response wins) over whole-engine histories (growth item, DESIGN.md section 5 / 13).
-Not one of the listed properties: `bin/check GATEWAY` validates recorded histories of a real flows-mode engine with several flows,
-Limiters on fixed-window and concurrency quotas, conditional branches and answering processors against specs/gateway.
+"""GATEWAY - composition of the property specifications of C03 (flow / quota selection: FilterP + UrlPattern), C04 (graph walk),
+C01 / C02 (quota state) and C07 (the answer) over whole-engine histories (growth item, DESIGN.md section 5 / 13).
+Not one of the listed properties: `bin/check GATEWAY` validates recorded histories of a real flows-mode engine with several flows
+(filters with path parameters, wildcards, method / header / query-parameter / status constraints), Limiters on fixed-window and
+concurrency quotas whose own filters use the same patterns, conditional branches and answering processors against specs/gateway.
 
-spec:     specs/gateway  GatewayP (composition), GatewayTrace (trace validation; instantiates FlowGraphP, FixedWindowP, ConcurrencyP)
+spec:     specs/gateway  GatewayP (composition), GatewayTrace (trace validation; instantiates FilterP, FlowGraphP, FixedWindowP, ConcurrencyP)
 binding:  harness/cmd/gateway drives one real engine per configuration through histories of requests / responses / proxy errors / clock advances
 """
 import json, os, shutil
-from vlib import Broken, read_ndjson, validate_history_trace, parallel, split_histories, VERIF
+from vlib import Broken, read_ndjson, parallel, split_histories, VERIF
 import _flowgraph as fg
 
 SPEC = "gateway"
 LEVEL = "model_checking"
-HOST = "g.test"
-WILD = HOST + "/*"
-URLS = [HOST + "/x", HOST + "/y"]
+HOST = ["g", "test"]
+LITS = ["x", "y", "z"]
+# url patterns of flows and quotas: exact, path parameters (named by position, as the loader requires), trailing wildcards
+PATHS = [["*"], ["*"], ["x"], ["y"], ["{p}"], ["x", "*"], ["x", "{q}"], ["x", "y"], ["{p}", "z"], ["x", "y", "*"], []]
+METHODS = ["GET", "POST", "PUT"]
+HVALS = ["v1", "v2", "V1", "zz"]
+
+
+def render(u):
+    return ".".join(u[0]) + ("/" + "/".join(u[1]) if u[1] else "")
+
+
+# ------------------------------------------------------------------------------------------------ YAML
+def filter_yaml(f, ind):
+    pad = " " * ind
+    s = "%surl: %s\n" % (pad, json.dumps(render(f["pat"])))
+    if f["m"]:
+        s += "%smethod: [%s]\n" % (pad, ", ".join(json.dumps(m) for m in f["m"]))
+    if f["h"]:
+        s += "%sheaders:\n" % pad + "".join("%s  - key: %s\n%s    value: %s\n" % (pad, json.dumps(k), pad, json.dumps(v)) for k, v in f["h"])
+    if f["q"]:
+        s += "%squery_params:\n" % pad + "".join("%s  - key: %s\n%s    value: %s\n" % (pad, json.dumps(k), pad, json.dumps(v)) for k, v in f["q"])
+    if f["s"]:
+        s += "%sstatus_code: [%s]\n" % (pad, ", ".join(str(c) for c in f["s"]))
+    return s
 
 
 def proc_yaml(p, limq, status):
@@ -32,7 +55,7 @@ def proc_yaml(p, limq, status):
 
 
 def flow_yaml(fl, limq, status):
-    s = "name: %s\nfilter:\n  url: %s\nprocessors:\n" % (fl["name"], json.dumps(fl["url"]))
+    s = "name: %s\nfilter:\n%sprocessors:\n" % (fl["name"], filter_yaml(fl, 2))
     for p in fl["procs"]:
         s += proc_yaml(p, limq, status)
     s += "flow:\n"
@@ -49,7 +72,7 @@ def flow_yaml(fl, limq, status):
 def quota_yaml(quotas):
     s = "quotas:\n"
     for q in quotas:
-        s += "  - id: %s\n    filter:\n      url: %s\n    strategy:\n" % (q["id"], json.dumps(q["url"]))
+        s += "  - id: %s\n    filter:\n%s    strategy:\n" % (q["id"], filter_yaml(q, 6))
         if q["kind"] == "fixed":
             s += "      fixed_window:\n        max: %d\n        interval: %d\n        interval_unit: second\n" % (q["max"], q["w"] // 2)
         else:
@@ -57,30 +80,51 @@ def quota_yaml(quotas):
     return s
 
 
+# ------------------------------------------------------------------------------------------------ configurations
+def rand_filter(rng, path, rich, status_ok):
+    f = {"pat": [HOST, path], "m": [], "h": [], "q": [], "s": []}
+    if rich and rng.random() < 0.25:
+        f["m"] = sorted(rng.sample(METHODS[:2], rng.choice([1, 1, 2])))
+    if rich and rng.random() < 0.2:
+        f["h"] = [["X-Key", v] for v in sorted(rng.sample(["v1", "v2"], rng.choice([1, 1, 2])))]
+    if rich and rng.random() < 0.15:
+        f["q"] = [["k", rng.choice(["1", "2"])]]
+    if rich and status_ok and rng.random() < 0.5:
+        f["s"] = sorted(rng.sample([200, 404, 500], rng.choice([1, 2])))
+    return f
+
+
 def rand_config(rng, n):
-    """1-3 user flows over a few URL patterns, 1-2 quotas (fixed window / concurrency) whose filters cover the host or one URL,
-    flows built from templates: Limiter with answering above-limit branch, conditional answer, plain processors."""
+    """1-3 user flows and 1-2 quotas (fixed window / concurrency) over url patterns with path parameters and wildcards, method / header /
+    query-parameter (and, in configurations without answering processors, status-code) constraints; flows built from templates: Limiter
+    with answering above-limit branch, conditional answer, plain processors, random graphs."""
     quotas = []
+    # Configurations with status-code filters have no answering processor: an early response is selected for again as a response
+    # that does not exist yet and a status-code filter then dereferences nil (observation G4, DESIGN.md section 14)
+    with_status = rng.random() < 0.25
     for i in range(rng.randint(1, 2)):
         # at most one concurrency quota per configuration (ConcurrencyP judges one Request per transaction)
         kind = rng.choice(["fixed", "conc"]) if not any(q["kind"] == "conc" for q in quotas) else "fixed"
-        # a concurrency quota covers the whole host: a Limiter that refers to a concurrency quota from a flow outside the quota's
-        # filter takes slots that no response releases (the releasing system flow hangs on the quota's filter) - they come
-        # back only by expiry, which these histories do not reach
-        quotas.append({"id": "q%d%d" % (n, i), "kind": kind, "url": WILD if kind == "conc" else rng.choice([WILD, WILD, URLS[0]]),
-                       "max": rng.randint(1, 3), "w": rng.choice([4, 6, 8])})
+        # a concurrency quota mostly covers the whole host; otherwise (observation G2) a Limiter that refers to it from a flow outside the
+        # quota's filter takes slots that no response releases - the releasing system flow hangs on the quota's filter
+        if kind == "conc":
+            q = rand_filter(rng, ["*"] if rng.random() < 0.65 else rng.choice(PATHS), False, False)
+        else:
+            q = rand_filter(rng, rng.choice(PATHS), True, False)
+        q.update({"id": "q%d%d" % (n, i), "kind": kind, "max": rng.randint(1, 3), "w": rng.choice([4, 6, 8])})
+        quotas.append(q)
     flows, limq, status, st = [], {}, {}, 430
-    used_urls = set()
+    used = set()
     for i in range(rng.randint(1, 3)):
-        url = rng.choice([u for u in URLS + [WILD] if u not in used_urls] or [WILD])
-        used_urls.add(url)
+        path = rng.choice([p for p in PATHS if tuple(p) not in used] or PATHS)
+        used.add(tuple(path))
         name = "F%d%d" % (n, i)
         k = lambda s: "%s%s" % (s, name)
-        tpl = rng.choice(["lim", "cond", "plain", "limcond", "random", "random"])
+        tpl = rng.choice(["plain", "limplain", "plain"] if with_status else ["lim", "cond", "plain", "limcond", "random", "random"])
         if tpl == "random":
             # a random graph over 2-4 processors of all four kinds: fan-out, several answering processors, shared targets
             keys = [k(c) for c in "ABCD"[: rng.randint(2, 4)]]
-            fl = fg.random_flow(rng, name, url, keys, True)
+            fl = fg.random_flow(rng, name, "", keys, True)
             procs = [(p["key"], p["kind"]) for p in fl["procs"]]
             for key, kind in procs:
                 if kind == "Lim":
@@ -102,6 +146,13 @@ def rand_config(rng, n):
             procs = [(k("P"), "Plain"), (k("R"), "Plain")]
             req = [fg.conn(fg.S("start"), fg.P(k("P"))), fg.conn(fg.P(k("P")), fg.S("end"))]
             res = [fg.conn(fg.S("start"), fg.P(k("R"))), fg.conn(fg.P(k("R")), fg.S("end"))]
+        elif tpl == "limplain":
+            q = rng.choice(quotas)["id"]
+            procs = [(k("L"), "Lim"), (k("P"), "Plain"), (k("R"), "Plain")]
+            limq[k("L")] = q
+            req = [fg.conn(fg.S("start"), fg.P(k("L"))), fg.conn(fg.P(k("L"), "above_limit"), fg.P(k("P"))),
+                   fg.conn(fg.P(k("L"), "below_limit"), fg.S("end")), fg.conn(fg.P(k("P")), fg.S("end"))]
+            res = [fg.conn(fg.S("start"), fg.P(k("R"))), fg.conn(fg.P(k("R")), fg.S("end"))]
         else:
             q = rng.choice(quotas)["id"]
             procs = [(k("L"), "Lim"), (k("C"), "Cond"), (k("G"), "Gen"), (k("H"), "Gen")]
@@ -114,11 +165,15 @@ def rand_config(rng, n):
             if kind == "Gen":
                 st += 1
                 status[key] = st
-        flows.append(fg.flow(name, procs, req, res, url=url))
-    cfg = {"flows": flows, "quotas": [{"id": q["id"], "kind": q["kind"], "url": q["url"]} for q in quotas]}
+        fl = fg.flow(name, procs, req, res, url="")
+        fl.update(rand_filter(rng, path, True, with_status))
+        fl["url"] = render(fl["pat"])
+        flows.append(fl)
+    cfg = {"flows": flows,
+           "quotas": [{"id": q["id"], "kind": q["kind"], "url": render(q["pat"]), "pat": q["pat"], "m": q["m"], "h": q["h"], "q": q["q"], "s": q["s"]}
+                      for q in quotas]}
     model = {"cfg": cfg, "QKind": {q["id"]: q["kind"] for q in quotas}, "QMax": {q["id"]: q["max"] for q in quotas},
-             "QW": {q["id"]: q["w"] for q in quotas}, "QUrl": {q["id"]: q["url"] for q in quotas},
-             "LimQ": limq or {"-": "-none-"}, "GenStatus": status or {"-": 0}, "HostWild": WILD}
+             "QW": {q["id"]: q["w"] for q in quotas}, "LimQ": limq or {"-": "-none-"}, "GenStatus": status or {"-": 0}}
     files = {"quotas/quotas.yaml": quota_yaml(quotas)}
     for fl in flows:
         files["flows/%s.yaml" % fl["name"]] = flow_yaml(fl, limq, status)
@@ -126,10 +181,53 @@ def rand_config(rng, n):
     return model, files, conds
 
 
-def rand_history(rng, conds, n, hid):
+# ------------------------------------------------------------------------------------------------ histories
+def rand_url(rng, pats):
+    """a url aimed at one of the configured patterns: parameters and wildcards instantiated, sometimes a segment too few / too many /
+    another last segment / the bare host / another host"""
+    path = list(rng.choice(pats))
+    if path and path[-1] == "*":
+        path = path[:-1] + [rng.choice(LITS) for _ in range(rng.choice([0, 1, 1, 2]))]
+    path = [rng.choice(LITS) if s.startswith("{") else s for s in path]
+    x = rng.random()
+    host = HOST
+    if x < 0.08 and path:
+        path = path[:-1]
+    elif x < 0.18:
+        path = path + [rng.choice(LITS)]
+    elif x < 0.26 and path:
+        path = path[:-1] + [rng.choice(LITS)]
+    elif x < 0.29:
+        host = rng.choice([["o", "test"], HOST + ["evil"], ["test"]])
+    return [host, path]
+
+
+def rand_tx(rng, cfg, rich):
+    """method / url / query / headers aimed at one of the configured filters: mostly satisfying it, sometimes missing one constraint"""
+    f = rng.choice(cfg["flows"] + cfg["flows"] + cfg["quotas"])
+    url = rand_url(rng, [f["pat"][1]])
+    method, qry, hdr = "GET", [], {}
+    if rich:
+        method = rng.choice(f["m"]) if f["m"] and rng.random() < 0.8 else rng.choice(["GET", "GET", "POST", "PUT"])
+        if f["h"] and rng.random() < 0.8:
+            hdr["x-key"] = rng.choice(f["h"])[1]
+        elif rng.random() < 0.4:
+            hdr["x-key"] = rng.choice(HVALS)
+        if f["q"] and rng.random() < 0.8:
+            qry = [list(f["q"][0])]
+        elif rng.random() < 0.3:
+            qry = [["k", rng.choice(["1", "2"])]]
+    return method, url, qry, hdr
+
+
+def rand_history(rng, model, conds, n, hid):
+    cfg = model["cfg"]
+    rich = any(f["m"] or f["h"] or f["q"] for f in cfg["flows"] + cfg["quotas"])
     now = rng.randint(2, 9)
     h = [{"ev": "reset", "now": now}]
     open_tx, k = [], 0
+    # a few kinds of transactions per history, so that the same windows and slots are hit repeatedly
+    kinds = [rand_tx(rng, cfg, rich) for _ in range(rng.randint(1, 3))]
     for _ in range(n):
         x = rng.random()
         if x < 0.15:
@@ -137,15 +235,16 @@ def rand_history(rng, conds, n, hid):
         elif x < 0.70 or not open_tx:
             k += 1
             tid = "t%s_%d" % (hid, k)
-            hdr = {"x-%s" % c.lower(): "1" for c in conds if rng.random() < 0.4}
-            url = rng.choice(URLS)
-            h.append({"ev": "req", "id": tid, "url": url, "hdr": hdr})
-            open_tx.append((tid, url))
+            method, url, qry, hdr = rng.choice(kinds) if rng.random() < 0.85 else rand_tx(rng, cfg, rich)
+            hdr = dict(hdr)
+            hdr.update({"x-%s" % c.lower(): "1" for c in conds if rng.random() < 0.4})
+            h.append({"ev": "req", "id": tid, "method": method, "url": url, "qry": qry, "hdr": hdr})
+            open_tx.append((tid, method, url))
         elif x < 0.92:
-            tid, url = open_tx.pop(rng.randrange(len(open_tx)))
-            h.append({"ev": "res", "id": tid, "url": url, "status": 200})
+            tid, method, url = open_tx.pop(rng.randrange(len(open_tx)))
+            h.append({"ev": "res", "id": tid, "method": method, "url": url, "status": rng.choice([200, 200, 404, 500])})
         else:
-            tid, url = open_tx.pop(rng.randrange(len(open_tx)))
+            tid, method, url = open_tx.pop(rng.randrange(len(open_tx)))
             h.append({"ev": "err", "id": tid})
     return h
 
@@ -165,7 +264,8 @@ def spec_dir(ctx):
         for sub in ("gateway", "common"):
             for f in os.listdir(os.path.join(VERIF, "specs", sub)):
                 shutil.copy(os.path.join(VERIF, "specs", sub, f), d)
-        for rel in ("c04_flow_graph/FlowGraphP.tla", "c01_fixed_window/FixedWindowP.tla", "c02_concurrency/ConcurrencyP.tla"):
+        for rel in ("c04_flow_graph/FlowGraphP.tla", "c01_fixed_window/FixedWindowP.tla", "c02_concurrency/ConcurrencyP.tla",
+                    "c03_filter_select/FilterP.tla"):
             shutil.copy(os.path.join(VERIF, "specs", rel), d)
     return d
 
@@ -179,27 +279,62 @@ def execute(ctx, binary, scripts, tag):
 
 
 def validate(ctx, events, tag, max_rounds=6):
-    return validate_history_trace(ctx, SPEC, "GatewayTrace", events, tag=tag, deque=True, max_rounds=max_rounds, timeout=900)
+    """TLC-validates one trace (config + histories) against GatewayTrace.  Returns (accepted histories, rejected, rounds); every rejected
+    entry carries the history, the index of the event the specification could not explain and the specification's own reason (the
+    REJECT line of the judgement, or the quota step that no behaviour of FixedWindowP / ConcurrencyP matches).  A rejected history is
+    removed and the rest validated again, so that one rejection does not hide later ones (bookkeeping as vlib.validate_history_trace)."""
+    import re
+    from vlib import write_ndjson
+    config, hs = split_histories(events)
+    rejected, rounds = [], 0
+    wd = os.path.join(ctx.scratch, "tv-gateway-%s" % tag)
+    if not os.path.isdir(wd):
+        shutil.copytree(spec_dir(ctx), wd)
+    while True:
+        rounds += 1
+        flat = [config] + [e for h in hs for e in h]
+        p = os.path.join(wd, "trace.ndjson")
+        write_ndjson(p, flat)
+        ok, hwm, r = ctx.tlc_trace(wd, "GatewayTrace", p, deque=True, timeout=900)
+        if ok and not r.violated:
+            return len(hs), rejected, rounds
+        if hwm < 1:
+            raise Broken("trace validation made no progress (GatewayTrace): %s\n%s" % (r, r.out[-2000:]))
+        bad = hwm + 1                                  # 1-based line of the first event that was not explained completely
+        why = [m.group(2) for m in re.finditer(r'<<\s*"REJECT",\s*(\d+),\s*"[^"]*",\s*"([^"]*)"\s*>>', r.out) if int(m.group(1)) == bad]
+        reason = why[0] if why else ("invariant " + r.violated if r.violated else "no-step-of-the-quota-specifications-explains-the-observed-verdicts")
+        idx, k = bad - 2, 0
+        for hi, h in enumerate(hs):
+            if idx < k + len(h):
+                rejected.append({"config": config, "hist": h, "at": idx - k, "invariant": r.violated, "reason": reason})
+                del hs[hi]
+                break
+            k += len(h)
+        else:
+            raise Broken("cannot locate rejected line %d of %d" % (bad, len(flat)))
+        if rounds >= max_rounds or not hs:
+            return len(hs), rejected, rounds
 
 
 def run(ctx):
     T = ctx.thorough
     binary = ctx.build_harness("gateway")
     sd = spec_dir(ctx)
-    ctx.spec_dir = lambda name, fresh=False: sd       # validate_history_trace copies the spec directory it is given
-    ctx.cov["rule"] = ("seeded random configurations (1-3 flows over exact URLs and the host wildcard built from Limiter / conditional / plain "
-                       "templates, 1-2 fixed-window or concurrency quotas) x seeded random histories of requests, responses, proxy errors and "
-                       "clock advances on one engine; non-trivial = a history in which a Limiter refused and a transaction was answered early")
+    ctx.cov["rule"] = ("seeded random configurations (1-3 flows and 1-2 fixed-window or concurrency quotas whose filters are url patterns with path "
+                       "parameters / wildcards plus method, header, query-parameter and status-code constraints; flows built from Limiter / conditional / "
+                       "plain templates and random graphs) x seeded random histories of requests, responses, proxy errors and clock advances on one "
+                       "engine; non-trivial = a history in which a Limiter refused and a transaction was answered early")
     ctx.cov["checker_cmd"] = "tlc -config GatewayTrace.cfg GatewayTrace.tla (StateDeque)"
-    ctx.cov["trusted_base"] = ["TLC 1.8", "the property specifications FlowGraphP / FixedWindowP / ConcurrencyP as checked by C04 / C01 / C02",
+    ctx.cov["trusted_base"] = ["TLC 1.8", "the property specifications FilterP / FlowGraphP / FixedWindowP / ConcurrencyP as checked by C03 / C04 / C01 / C02",
                                "harness/cmd/gateway projection of generated system-flow names"]
-    ctx.assumptions += ["selection restricted to exact URLs and the host wildcard", "one tick = 500 ms; fixed windows 2-4 s; no concurrency-slot expiry within a history",
-                        "sequential histories (concurrency is C18's subject)", "at most one concurrency quota per configuration"]
+    ctx.assumptions += ["one tick = 500 ms; fixed windows 2-4 s; no concurrency-slot expiry within a history",
+                        "sequential handling of overlapping transactions (concurrency is C18's subject)", "at most one concurrency quota per configuration",
+                        "status-code filters only in configurations without answering processors (observation G4)"]
     ncfg, nh, hl = (24, 10, 24) if not T else (160, 24, 40)
-    scripts, conds_of = [], []
+    scripts = []
     for n in range(ncfg):
         model, files, conds = rand_config(ctx.rng, n)
-        hs = [rand_history(ctx.rng, conds, hl, "%d_%d" % (n, i)) for i in range(nh)]
+        hs = [rand_history(ctx.rng, model, conds, hl, "%d_%d" % (n, i)) for i in range(nh)]
         scripts.append({"config": model, "files": files, "histories": hs})
     first = execute(ctx, binary, scripts, "probe")
     # second pass without responses for transactions the engine answered itself
@@ -214,13 +349,14 @@ def run(ctx):
     traces, scripts = [traces[i] for i in keep], [scripts[i] for i in keep]
     if len(traces) < 3:
         raise Broken("only %d configurations loaded" % len(traces))
-    ctx.sample({"kind": "whole-engine history", "events": split_histories(traces[0])[1][0][:6]})
+    ctx.sample({"kind": "whole-engine history", "events": [slim(e) for e in split_histories(traces[0])[1][0][:6]]})
 
     def one(it):
         i, ev = it
         return validate(ctx, ev, "g%d" % i)
     res = parallel(one, list(enumerate(traces)), n=6)
     ctx.cov["states"] = max(1, ctx.cov["states"])
+    stats = {"tx": 0, "refused": 0, "early": 0, "multi": 0, "rich": 0}
     for (acc, rejected, rounds), ev, sc in zip(res, traces, scripts):
         cfg, hs = split_histories(ev)
         ctx.cov["traces_validated_against_impl"] += acc
@@ -229,12 +365,16 @@ def run(ctx):
             ctx.cov["evaluations"] += len(txs)
             refused = any(s.get("out") == "above_limit" for e in txs for s in e.get("seq", []))
             early = any(e.get("status", 0) for e in txs)
+            stats["tx"] += len(txs)
+            stats["refused"] += sum(1 for e in txs for s in e.get("seq", []) if s.get("out") == "above_limit")
+            stats["early"] += sum(1 for e in txs if e.get("status", 0))
+            stats["multi"] += sum(1 for e in txs if len({s["flow"] for s in e.get("seq", []) if not s.get("sid")}) > 1)
             if refused and early:
                 ctx.cov["distinct_nontrivial"] += 1
         for rej in rejected:
             e = rej["hist"][min(rej["at"], len(rej["hist"]) - 1)]
-            w = {"class": "whole-engine-history-rejected-by-composition", "event": {k: v for k, v in e.items() if k != "seq"},
-                 "seq": [(s.get("flow"), s.get("key"), s.get("dir"), s.get("out")) for s in e.get("seq", [])][:12], "invariant": rej.get("invariant")}
+            w = {"class": "whole-engine-history-rejected-by-composition", "event": {k: v for k, v in e.items() if k not in ("seq", "acts", "out")},
+                 "seq": [(s.get("flow"), s.get("key"), s.get("dir"), s.get("out")) for s in e.get("seq", [])][:12], "reason": rej.get("reason")}
             script = {"config": sc["config"], "files": sc["files"], "histories": [script_of(rej["hist"])]}
             t2 = execute(ctx, binary, [script], "repro")[0]
             _, r2, _ = validate(ctx, t2, "repro", max_rounds=1)
@@ -243,7 +383,14 @@ def run(ctx):
             ctx.violation(w, {"script": script, "trace": [rej["config"]] + rej["hist"], "rejected_at": rej["at"]})
     ctx.cov["transitions"] = max(1, ctx.cov["evaluations"])
     ctx.cov["states"] = max(1, ctx.cov["traces_validated_against_impl"])
+    ctx.cov["gateway_stats"] = stats
     ctx.notes.append("states/transitions here are trace-validation counts (histories / transactions), no exhaustive run belongs to the composition itself")
+    if stats["refused"] == 0 or stats["early"] == 0 or stats["multi"] == 0:
+        raise Broken("vacuous run: %s" % stats)
+
+
+def slim(e):
+    return {k: v for k, v in e.items() if k not in ("acts", "out")} if e.get("ev") == "tx" else e
 
 
 def script_of(hist):
@@ -254,9 +401,13 @@ def script_of(hist):
         elif e["ev"] == "adv":
             out.append({"ev": "adv", "d": e["d"]})
         elif e["ev"] == "tx" and e["dir"] == "req":
-            out.append({"ev": "req", "id": e["id"], "url": e["url"], "hdr": e.get("hdr", {})})
+            x = e["x"]
+            out.append({"ev": "req", "id": e["id"], "sq": e.get("sq", e["id"]), "method": x["method"], "url": x["url"], "qry": x["qry"],
+                        "hdr": {k: v for k, v in x["hdr"]}, "body": e.get("body", "")})
         elif e["ev"] == "tx":
-            out.append({"ev": "res", "id": e["id"], "url": e["url"], "status": 200})
+            x = e["x"]
+            out.append({"ev": "res", "id": e["id"], "sq": e.get("sq", e["id"]), "method": x["method"], "url": x["url"], "status": x["status"],
+                        "hdr": {k: v for k, v in x["hdr"]}, "body": e.get("body", "")})
         elif e["ev"] == "err":
             out.append({"ev": "err", "id": e["id"]})
     return out
@@ -265,8 +416,7 @@ def script_of(hist):
 def replay(ctx, path):
     obj = json.load(open(path))
     binary = ctx.build_harness("gateway")
-    sd = spec_dir(ctx)
-    ctx.spec_dir = lambda name, fresh=False: sd
+    spec_dir(ctx)
     t = execute(ctx, binary, [obj["replay"]["script"]], "replay")[0]
     _, rej, _ = validate(ctx, t, "replay", max_rounds=1)
     if rej:
